@@ -117,7 +117,7 @@ def storeLine (s : S) : String :=
       | .ok (p, seq) => s!"{hex4 k}:{hexOrDash p}:{seq}"
       | .error _ => s!"{hex4 k}:corrupt:{raw.length}"
     | none => s!"{hex4 k}:none"
-  "store " ++ " ".intercalate items
+  " ".intercalate ("store" :: items)
 
 def ctrLine (s : S) : String :=
   let c := s.core
